@@ -7,6 +7,7 @@ import ScVerif.C06.Sched
 import ScVerif.C06.VSched
 import ScVerif.C06.Lossy
 import ScVerif.C06.ReadAfter
+import ScVerif.C06.Waste
 /-! Driver handler for C06: the stateful handler shared with C05 (message-tree model; the C06
 operations there are `rvalidate`, `rfilter`, `project`), extended with the read-option operations:
 
@@ -50,6 +51,10 @@ operations there are `rvalidate`, `rfilter`, `project`), extended with the read-
   vsched <ty> <opts> <eq> <init|nil> <npre> <step>*   -> panic | `-` | time|msg|S.L. ...
       Value.Pull in a schedule of Set halves on a value holding <init> (change time 0): <step> =
       `s <msg> <time>` Set up to bus.Send, `p <k>` bus.Send of the k-th parked writer (VSched.lean).
+
+  wpull <mask> <U0|U1> <n> <msg>*n <cur|nil> <msg>*   -> panic | `-` | msg|nil ...
+      wastepb ModelServer.PullWasteRecords (Waste.lean: wastePull) on a history of n records, lastWasteRecord
+      holding <cur>, then the records published: the new_value of every change sent
 
   lmerge <change> <change>      -> drop | id|time|TYPE|old|new|S.L.      (mergeChanges; <change> as in cread)
   lstage <sched> <change>*      -> `-` | one entry per hand-over: `_` (queue empty) or the change
@@ -312,6 +317,21 @@ def handleS (S : Schema) (toks : List String) : Schema × String :=
         | some m => (S, showOptMsg m)
         | none => (S, "panic")
     | _, _, _, _ => bad
+  | "wpull" :: m :: uo :: n :: rest =>
+    match parseMask m, n.toNat? with
+    | some mask, some n =>
+      match (rest.take n).mapM parseMessage, rest.drop n with
+      | some hist, cur :: evs =>
+        match parseOptMsg cur, evs.mapM parseMessage with
+        | some cur, some evs =>
+          if uo = "U0" || uo = "U1" then
+            match wastePull mask (uo == "U1") hist cur evs with
+            | some vs => (S, showList (vs.map showOptMsg))
+            | none => (S, "panic")
+          else bad
+        | _, _ => bad
+      | _, _ => bad
+    | _, _ => bad
   | "lmerge" :: rest =>
     match parseChanges rest with
     | some [a, b] => (S, match mergeChanges a b with | none => "drop" | some n => showChange n)
